@@ -149,6 +149,9 @@ func parent() {
 			r.Distinct("(state,endpoint)", st+"/"+d.EP)
 			r.Distinct("(state,endpoint,class)", st+"/"+d.EP+"/"+d.Class)
 			r.Distinct("class", d.Class)
+			if d.Class == "c12-values" && d.Arg < 1000 {
+				r.Distinct("hostile (value, target) pair", res.Variant)
+			}
 			r.Nontrivial(st + "|" + d.EP + "|" + d.Class + "|" + res.Variant)
 			r.SampleAt(d.ID, func() interface{} {
 				return map[string]interface{}{"state": st, "endpoint": d.EP, "class": d.Class, "variant": res.Variant, "request_bytes": res.ReqLen, "request_head": trunc(res.ReqHead, 200),
@@ -173,6 +176,7 @@ func parent() {
 			r.Floor("messages_in_state_"+stateNames[s], int(r.Counter("state:"+stateNames[s])), n/40)
 		}
 		r.Floor("distinct_(state,endpoint,class)", r.DistinctN("(state,endpoint,class)"), 250)
+		r.Floor("hostile (value, target) pairs", r.DistinctN("hostile (value, target) pair"), len(c12Values)*10*95/100)
 	}
 	if r.ViolationCount() == 0 {
 		// on a tree without defects every continuation and health check must have run and passed
